@@ -73,12 +73,13 @@ def _spec_binned(ctx, obs, native, spectrum):
 
 @harness('C06', 'loglike',
          quick=[dict(sampler='nestle', nobs=2, npar=2), dict(sampler='multinest', nobs=2, npar=2), dict(sampler='polychord', nobs=2, npar=2),
-                dict(sampler='nestle', nobs=3, npar=1)],
+                dict(sampler='nestle', nobs=3, npar=1), dict(sampler='nestle', nobs=2, npar=2, mismatch=True)],
          thorough=[dict(sampler=s, nobs=3, npar=2, seq=3, _shards=4) for s in ('nestle', 'multinest', 'polychord')] +
-                  [dict(sampler='nestle', nobs=3, npar=3, _shards=2)],
+                  [dict(sampler='nestle', nobs=3, npar=3, _shards=2), dict(sampler='polychord', nobs=2, npar=2, mismatch=True),
+                   dict(sampler='multinest', nobs=3, npar=2, mismatch=True, _shards=2)],
          covers=['valid_then_valid', 'invalid_then_valid', 'valid_then_invalid'], functions=FUNCS, stubs=STUBS, shard_depth=3,
          outside=['what the external samplers do with the callbacks', 'dypolychord', 'real forward models (doubles only)'])
-def loglike(ctx, sampler, nobs, npar, seq=2):
+def loglike(ctx, sampler, nobs, npar, seq=2, mismatch=False):
     """Real compute_fit of the sampler wrapper (sampler replaced by a recording double) -> captured log-likelihood and
     prior callbacks; real chisq_trans/update_model/compile_params/priors/ArraySpectrum/FluxBinner.  For a sequence of
     symbolic cube points (valid or invalid): loglike == -sum ln(sigma sqrt(2 pi)) - chi^2/2 of the observation vs the
@@ -98,6 +99,9 @@ def loglike(ctx, sampler, nobs, npar, seq=2):
         hi = ctx.real('b_hi', gt=0, hint=(2, 10))
         ctx.assume(lo < hi)
         opt.set_boundary('a', [lo, hi])            # linear parameter, default Uniform prior
+        if mismatch:
+            # prior space differs from the parameter's mode: log-space prior on the linear-mode parameter
+            opt.set_prior('a', LogUniform(bounds=[lo, hi]))
         if npar > 1:
             opt.set_prior('b', LogUniform(bounds=[-1.0, 1.0]))   # log parameter, explicit prior in log space
         opt.compile_params()
@@ -154,7 +158,7 @@ def loglike(ctx, sampler, nobs, npar, seq=2):
             except Exception as ex:
                 ctx.goal('callback_never_raises[%d]:%s' % (s, type(ex).__name__), False)
                 return
-            p = [th[0]] + ([ctx.exp10(th[1])] if npar > 1 else []) + ([th[2]] if npar > 2 else [])
+            p = [ctx.exp10(th[0]) if mismatch else th[0]] + ([ctx.exp10(th[1])] if npar > 1 else []) + ([th[2]] if npar > 2 else [])
             invalid = bool(ctx.lt(limit, p[0]))
             pattern.append('invalid' if invalid else 'valid')
             isnan = isinstance(val, (float, np.floating)) and val != val
@@ -184,3 +188,116 @@ def loglike(ctx, sampler, nobs, npar, seq=2):
     finally:
         for e in reversed(envs):
             e.__exit__(None, None, None)
+
+
+@harness('C06', 'invalid_atmosphere',
+         quick=[dict(sampler='nestle', n=2), dict(sampler='polychord', n=2)],
+         thorough=[dict(sampler=s, n=k) for s in ('nestle', 'multinest', 'polychord') for k in (2, 3)],
+         covers=['valid', 'invalid_in_one_layer_only'], functions=FUNCS + [
+             'taurex.data.profiles.chemistry.taurexchemistry:TaurexChemistry.initialize_chemistry'],
+         stubs=STUBS + ['forward model double whose model() initialises a REAL TaurexChemistry (fill H2/He + an ArrayGas trace whose '
+                        'per-layer abundance is the fitted parameters) before returning a constant spectrum'],
+         shard_depth=3)
+def invalid_atmosphere(ctx, sampler, n):
+    """The callback built by the real compute_fit, driving a model whose validity is decided by the REAL
+    TaurexChemistry: a parameter vector whose trace abundances exceed one in ANY layer (also in one layer only) gives a
+    non-finite log-likelihood and no exception; a valid vector gives the Gaussian value."""
+    import taurex.core.priors as pm
+    import taurex.optimizer.nestle as nm
+    from taurex.model import ForwardModel
+    from taurex.data.profiles.chemistry import TaurexChemistry
+    from taurex.data.profiles.chemistry.gas.arraygas import ArrayGas
+    from taurex.data.spectrum.array import ArraySpectrum
+    from taurex.binning import Binner
+    from taurex.optimizer.nestle import NestleOptimizer
+    from .c10 import _chem_env
+    native = np.array([900.0, 1000.0])
+
+    class _ChemModel(ForwardModel):
+        def __init__(self):
+            super().__init__('ChemModel')
+            self.mix = [0.1] * n
+            with _chem_env(['H2O']):
+                self.chem = TaurexChemistry(fill_gases=['H2', 'He'], ratio=0.17)
+                self.gas = ArrayGas('H2O', mix_ratio_array=list(self.mix))
+                self.chem.addGas(self.gas)
+            for k in range(n):
+                def fget(s, k=k):
+                    return s.mix[k]
+
+                def fset(s, v, k=k):
+                    s.mix[k] = v
+                self.add_fittable_param('mix%d' % k, 'mix%d' % k, fget, fset, 'linear', True, [0.0, 2.0])
+
+        def build(self):
+            pass
+
+        def initialize_profiles(self):
+            pass
+
+        def model(self, wngrid=None, cutoff_grid=True):
+            self.gas._mix_ratio_array = np.array(list(self.mix), dtype=object if ctx.sym else float)
+            self.chem.initialize_chemistry(n, np.ones(n) * 1000.0, np.logspace(5, 0, n), None)
+            return native, np.ones(2) * 2.0, np.zeros((1, 2)), None
+    model = _ChemModel()
+    d = ctx.reals('obs', 1, hint=(0, 5))
+    sg = ctx.reals('sigma', 1, gt=0, hint=(0.1, 1))
+    arr = np.empty((1, 4), dtype=object if ctx.sym else float)
+    arr[0, 0], arr[0, 1], arr[0, 2], arr[0, 3] = 10000.0 / 950.0, d[0], sg[0], 1.0
+    obs = ArraySpectrum(arr)
+
+    class _MeanBinner(Binner):
+        def bindown(self, wngrid, spectrum, grid_width=None, error=None):
+            return obs.wavenumberGrid, np.array([(spectrum[0] + spectrum[1]) / 2.0]), None, obs.binWidths
+    obs.create_binner = lambda: _MeanBinner()
+    envs = [patched(pm, stats=stubs.stats_stub)] if ctx.sym else []
+    for e in envs:
+        e.__enter__()
+    try:
+        if sampler == 'nestle':
+            opt = NestleOptimizer(observed=obs, model=model)
+        elif sampler == 'multinest':
+            from taurex.optimizer.multinest import MultiNestOptimizer
+            opt = MultiNestOptimizer(multi_nest_path='/nonexistent_symx', observed=obs, model=model)
+        else:
+            from taurex.optimizer.polychord import PolyChordOptimizer
+            opt = PolyChordOptimizer(polychord_path='/nonexistent_symx', observed=obs, model=model)
+        opt.compile_params()
+        REC.clear()
+        try:
+            if sampler == 'nestle':
+                with patched(nm, nestle=nestle_double(None)):
+                    opt.compute_fit()
+            else:
+                opt.compute_fit()
+        except Exception:
+            pass
+        cb = REC.get(sampler)
+        ctx.goal('callbacks_captured', cb is not None and cb['ndim'] == n)
+        if cb is None:
+            return
+        th = ctx.reals('theta', n, ge=0, hint=(0, 1.5))
+        try:
+            if sampler == 'multinest':
+                val = cb['loglike'](list(th), n, n)
+            else:
+                val = cb['loglike'](list(th))
+            if sampler == 'polychord':
+                val = val[0]
+        except Exception as ex:
+            ctx.goal('callback_never_raises:%s' % type(ex).__name__, False)
+            return
+    finally:
+        for e in reversed(envs):
+            e.__exit__(None, None, None)
+    exceeds = ctx.or_([ctx.lt(1.0, th[k]) for k in range(n)])
+    isnan = isinstance(val, (float, np.floating)) and val != val
+    ctx.cover_if('invalid_in_one_layer_only', ctx.and_(ctx.lt(1.0, th[n - 1]), ctx.and_([ctx.le(th[k], 1.0) for k in range(n - 1)])))
+    if isnan:
+        ctx.region('chi2_zero', ctx.eq(d[0], 2.0))
+        ctx.goal('loglike[nan_only_if_invalid]', exceeds)       # (chi^2 == 0 -> NaN is the recorded finding)
+    else:
+        ctx.cover('valid')
+        ctx.goal('finite_only_if_valid', ctx.not_(exceeds))
+        r = (d[0] - 2.0) / sg[0]
+        ctx.goal('loglike_value', ctx.eq(val, -ctx.log(sg[0] * math.sqrt(2 * math.pi)) - 0.5 * r * r, scale=None if ctx.sym else 1.0))
